@@ -1,9 +1,10 @@
 (** C08  DPoS finality.  Only statements, each closed by [exact] of a lemma proved in
-    Dpos/LibProofs.v, Dpos/LibOnMain.v, Dpos/LibQuorum.v, Dpos/LibQuorumHist.v, Dpos/LibRestart.v or
+    Dpos/LibProofs.v, Dpos/LibOnMain.v, Dpos/LibQuorum.v, Dpos/LibQuorumHist.v, Dpos/LibRestart.v, Dpos/ElectionProofs.v or
     Dpos/ProtocolProofs.v, followed by [Print Assumptions].
-    Model: Dpos/Lib.v (libStatus/Status/node, after the repairs F9, F21, F22), Dpos/Protocol.v. *)
+    Model: Dpos/Lib.v (libStatus/Status/node, after the repairs F9, F21, F22), Dpos/Election.v
+    (bp.Snapshots / bp.Cluster / GetRankers around the status, after F23, F24), Dpos/Protocol.v. *)
 From Coq Require Import ZArith List Bool.
-From Verif Require Import Dpos.Lib Dpos.LibProofs Dpos.LibOnMain Dpos.LibQuorum Dpos.LibQuorumHist Dpos.LibRestart Dpos.LibExamples
+From Verif Require Import Dpos.Lib Dpos.LibProofs Dpos.LibOnMain Dpos.LibQuorum Dpos.LibQuorumHist Dpos.LibRestart Dpos.LibExamples Dpos.Election Dpos.ElectionProofs
   Dpos.Protocol Dpos.ProtocolInv Dpos.ProtocolProofs.
 Import ListNotations.
 Open Scope Z_scope.
@@ -132,6 +133,25 @@ Theorem C08_restart_equals_recompute : forall nd p l lpb,
 Proof. exact restart_equals_recompute. Qed.
 Print Assumptions C08_restart_equals_recompute.
 
+(** ForceResetHeight (operator action at start-up): disabled it is the ordinary restore; enabled,
+    neither the LIB nor any proposal stays above the reset height. *)
+Theorem C08_restore_reset_zero : forall g sv best size self,
+  restore_reset g sv best size self 0 = (restore g sv best size self, sv).
+Proof. exact restore_reset_zero. Qed.
+Print Assumptions C08_restore_reset_zero.
+
+Theorem C08_restore_reset_bounds : forall g sv best size self rh st sv',
+  0 < rh -> restore_reset g sv best size self rh = (st, sv') ->
+  b_no (ls_lib (st_ls st)) <= rh \/ sv = None /\ ls_lib (st_ls st) = empty_info.
+Proof. exact restore_reset_bounds. Qed.
+Print Assumptions C08_restore_reset_bounds.
+
+Theorem C08_restore_reset_proposals_bounded : forall g sv best size self rh st sv',
+  0 < rh -> restore_reset g sv best size self rh = (st, sv') ->
+  Forall (fun kv => b_no (pl_plib (snd kv)) <= rh /\ b_no (pl_by (snd kv)) <= rh) (ls_prpsd (st_ls st)).
+Proof. exact restore_reset_proposals_bounded. Qed.
+Print Assumptions C08_restore_reset_proposals_bounded.
+
 (** ... but it is not always the status computed online (known finding). *)
 Theorem C08_restart_equals_online_refuted :
   exists size self evs,
@@ -173,3 +193,59 @@ Theorem C08_agreement_refuted_equivocation_only :
   exists w, prun (init_world 4 [3]) f14b_history = Some w /\ few_faults w = true /\ ~ agreement w.
 Proof. exact agreement_refuted_equivocation_only. Qed.
 Print Assumptions C08_agreement_refuted_equivocation_only.
+
+(** * Block-producer election (bp/cluster.go around Status.Update) *)
+
+(** The producer set installed in a node after any history (forks, reorganisations across
+    election boundaries, vetoes, restarts) is the one its main chain determines: the genesis list
+    below the bootstrap height, else the first BPCOUNT entries of the vote ranking committed by
+    the main-chain block at the reference height snapBlockNo(best). *)
+Theorem C08_cluster_function_of_chain : forall sto gen nd, reachable sto gen nd ->
+  cluster_spec sto gen (en_main nd) (Z.of_nat (length (en_main nd)) - 1) = Some (sn_cluster (e_sn nd)).
+Proof. exact cluster_function_of_chain. Qed.
+Print Assumptions C08_cluster_function_of_chain.
+
+Theorem C08_same_chain_same_producers : forall sto gen nd1 nd2,
+  reachable sto gen nd1 -> reachable sto gen nd2 ->
+  en_main nd1 = en_main nd2 -> sn_cluster (e_sn nd1) = sn_cluster (e_sn nd2).
+Proof. exact same_chain_same_producers. Qed.
+Print Assumptions C08_same_chain_same_producers.
+
+Theorem C08_restart_same_producers : forall sto gen nd, reachable sto gen nd ->
+  sn_cluster (e_sn (erestart sto gen nd)) = sn_cluster (e_sn nd).
+Proof. exact restart_same_producers. Qed.
+Print Assumptions C08_restart_same_producers.
+
+(** confirmsRequired is 2n/3+1 of the CURRENT producer count in every reachable node. *)
+Theorem C08_confirms_required_current : forall sto gen nd, reachable sto gen nd ->
+  ls_cr (e_ls nd) = confirms_required (esize (e_sn nd)).
+Proof. exact confirms_required_current. Qed.
+Print Assumptions C08_confirms_required_current.
+
+(** When Update of a boundary block installs a new producer set, only its members keep an entry
+    in the proposal map: a retired producer's proposals are not counted after the boundary. *)
+Theorem C08_retired_producers_dropped : forall sto gen g s blk sn' bps,
+  (k_id (st_best (es_st s)) =? k_prev blk) = true ->
+  add_snapshot sto gen g (es_sn s) blk = (sn', bps) -> bps <> [] ->
+  bps = sn_cluster sn' /\
+  Forall (fun kv => In (fst kv) bps) (ls_prpsd (st_ls (es_st (estatus_update sto gen g s blk)))).
+Proof. exact retired_producers_dropped. Qed.
+Print Assumptions C08_retired_producers_dropped.
+
+(** The node-local finality clauses with elections (changing producer set and confirmsRequired). *)
+Theorem C08_e_lib_monotone : forall sto gen self evs1 evs2, Forall ev_ok (evs1 ++ evs2) ->
+  e_lib_no (erun sto gen (einit_node gen self) evs1) <=
+  e_lib_no (erun sto gen (einit_node gen self) (evs1 ++ evs2)).
+Proof. exact e_lib_monotone. Qed.
+Print Assumptions C08_e_lib_monotone.
+
+Theorem C08_e_finalized_never_undone : forall sto gen self evs1 evs2 h b, Forall ev_ok (evs1 ++ evs2) ->
+  0 <= h <= e_lib_no (erun sto gen (einit_node gen self) evs1) ->
+  e_main_at (erun sto gen (einit_node gen self) evs1) h = Some b ->
+  e_main_at (erun sto gen (einit_node gen self) (evs1 ++ evs2)) h = Some b.
+Proof. exact e_finalized_never_undone. Qed.
+Print Assumptions C08_e_finalized_never_undone.
+
+Theorem C08_e_lib_on_main_chain : forall sto gen nd, reachable sto gen nd -> lib_on_main (proj nd) = true.
+Proof. exact e_lib_on_main_chain. Qed.
+Print Assumptions C08_e_lib_on_main_chain.
